@@ -286,6 +286,56 @@ impl SortedUintVec {
         }
     }
 
+    /// Serialize the vector (configuration, element count, sample index and delta data)
+    /// into a self-describing byte image, the inverse of [`SortedUintVec::from_bytes`].
+    pub fn to_bytes(&self) -> Vec<u8> {
+        let mut out = Vec::with_capacity(32 + self.index.len() + self.data.len());
+        out.extend_from_slice(&(self.size as u64).to_le_bytes());
+        out.push(self.config.log2_block_units);
+        out.push(self.config.offset_width);
+        out.push(self.config.sample_width);
+        out.push(self.config.use_simd as u8);
+        out.extend_from_slice(&[0u8; 4]);
+        out.extend_from_slice(&(self.index.len() as u64).to_le_bytes());
+        out.extend_from_slice(&(self.data.len() as u64).to_le_bytes());
+        out.extend_from_slice(self.index.as_slice());
+        out.extend_from_slice(self.data.as_slice());
+        out
+    }
+
+    /// Rebuild a vector from the image written by [`SortedUintVec::to_bytes`].
+    pub fn from_bytes(bytes: &[u8]) -> Result<Self> {
+        if bytes.len() < 32 {
+            return Err(ZiporaError::invalid_data("sorted uint vec image truncated"));
+        }
+        let u64_at = |o: usize| {
+            let mut b = [0u8; 8];
+            b.copy_from_slice(&bytes[o..o + 8]);
+            u64::from_le_bytes(b)
+        };
+        let size = u64_at(0) as usize;
+        let config = SortedUintVecConfig {
+            log2_block_units: bytes[8],
+            offset_width: bytes[9],
+            sample_width: bytes[10],
+            use_simd: bytes[11] != 0,
+        };
+        let index_len = u64_at(16) as usize;
+        let data_len = u64_at(24) as usize;
+        let total = 32usize
+            .checked_add(index_len)
+            .and_then(|v| v.checked_add(data_len))
+            .ok_or_else(|| ZiporaError::invalid_data("sorted uint vec image lengths overflow"))?;
+        if bytes.len() != total {
+            return Err(ZiporaError::invalid_data("sorted uint vec image length mismatch"));
+        }
+        let mut result = Self::with_config(config)?;
+        result.index.extend(bytes[32..32 + index_len].iter().copied())?;
+        result.data.extend(bytes[32 + index_len..total].iter().copied())?;
+        result.size = size;
+        Ok(result)
+    }
+
     /// Get value at index with bounds checking
     pub fn get(&self, index: usize) -> Result<u64> {
         if index >= self.size {
